@@ -435,7 +435,7 @@ class FieldStorage:
         header_raw = None
         try:
             headers_raw = src.read(sz).decode()
-            for header_raw in headers_raw.splitlines():
+            for header_raw in headers_raw.split('\r\n'):
                 header = self.parse_header(header_raw)
                 self.headers[header.name] = header
                 if header.name == 'Content-Disposition':
